@@ -38,6 +38,48 @@ type c16Case struct {
 	// be repaired first and is then checked like any other
 	Repairable bool `json:"repairable,omitempty"`
 	JSONBlobs  bool `json:"json_blobs,omitempty"` // (blob paths) JSON-encoded event blobs
+	// GarbageFirst: (blob lists) a batch that cannot be inspected (garbage bytes) is put in front of the real batches
+	GarbageFirst bool `json:"garbage_first,omitempty"`
+}
+
+// c16PrependGarbage puts an undecodable blob in front of every repeated event-blob field that holds something.
+func c16PrependGarbage(m protoreflect.Message) int {
+	n := 0
+	m.Range(func(fd protoreflect.FieldDescriptor, v protoreflect.Value) bool {
+		if fd.IsMap() {
+			if fd.MapValue().Message() != nil {
+				v.Map().Range(func(_ protoreflect.MapKey, mv protoreflect.Value) bool { n += c16PrependGarbage(mv.Message()); return true })
+			}
+			return true
+		}
+		if fd.Message() == nil {
+			return true
+		}
+		if fd.Message().FullName() == "temporal.api.common.v1.DataBlob" {
+			if fd.IsList() && vfshared.EventBlobFields[string(fd.FullName())] && v.List().Len() > 0 {
+				l := v.List()
+				first := l.Get(0).Message()
+				garbage := proto.Clone(first.Interface()).ProtoReflect()
+				garbage.Set(garbage.Descriptor().Fields().ByName("data"), protoreflect.ValueOfBytes([]byte("\x0a\x05\xff\xfe\xfd\xfc\xfb-not-a-history-batch")))
+				l.Append(protoreflect.ValueOfMessage(first))
+				for i := l.Len() - 1; i > 0; i-- {
+					l.Set(i, l.Get(i-1))
+				}
+				l.Set(0, protoreflect.ValueOfMessage(garbage))
+				n++
+			}
+			return true
+		}
+		if fd.IsList() {
+			for i := 0; i < v.List().Len(); i++ {
+				n += c16PrependGarbage(v.List().Get(i).Message())
+			}
+		} else {
+			n += c16PrependGarbage(v.Message())
+		}
+		return true
+	})
+	return n
 }
 
 const (
@@ -99,6 +141,9 @@ func c16Run(c c16Case) error {
 	corrupted := false
 	if c.Corrupt && c.Companion {
 		corrupted = c16CorruptBlobs(req.ProtoReflect())
+	}
+	if c.GarbageFirst && c16PrependGarbage(req.ProtoReflect()) > 0 {
+		corrupted = true // same verdict rule: a request that cannot be inspected completely must not be let through
 	}
 	original := proto.Clone(req)
 	repaired := false
@@ -264,7 +309,7 @@ func c16Classify(st *vfshared.Stats, c c16Case, paths []vfshared.Path) {
 	}
 }
 
-const c16Rule = "every unary request type of both services x every namespace-name path in it (descriptors; through event blobs; failure chains): forbidden name at exactly that path (allowed, non-empty names everywhere else) => PermissionDenied and handler never called; allowed everywhere => handler called once with the (translated) request; x {no translation, translation remote->local, translation + bypass header}; blob paths additionally with a failure message holding invalid UTF-8 in the same batch (the blob is repaired first and then checked), with JSON-encoded blobs and with an undecodable batch (fail closed); plus random multi-path combinations; non-trivial = forbidden name at depth>=3 or inside a blob, or allowed only because translation ran first; distinct = (method, paths, forbidden flags, translation, bypass, companion)"
+const c16Rule = "every unary request type of both services x every namespace-name path in it (descriptors; through event blobs; failure chains): forbidden name at exactly that path (allowed, non-empty names everywhere else) => PermissionDenied and handler never called; allowed everywhere => handler called once with the (translated) request; x {no translation, translation remote->local, translation + bypass header}; blob paths additionally with a failure message holding invalid UTF-8 in the same batch (the blob is repaired first and then checked), with JSON-encoded blobs with an undecodable batch (fail closed) and with an uninspectable batch in front of the batch that names the forbidden namespace; plus random multi-path combinations; non-trivial = forbidden name at depth>=3 or inside a blob, or allowed only because translation ran first; distinct = (method, paths, forbidden flags, translation, bypass, companion)"
 
 func TestVF_C16_Paths(t *testing.T) {
 	const part = "paths"
@@ -304,6 +349,14 @@ func TestVF_C16_Paths(t *testing.T) {
 						}
 						c16Classify(st, c, []vfshared.Path{p})
 						n++
+						if viaBlob && forbidden {
+							cg := c
+							cg.GarbageFirst = true
+							if err := c16Run(cg); err != nil {
+								c16Fail(t, st, part, cg, err)
+							}
+							st.Case(vfshared.Fingerprint(cg), true, "forbidden_behind_an_uninspectable_batch")
+						}
 						if viaBlob {
 							cj := c
 							cj.JSONBlobs = true
